@@ -1005,6 +1005,11 @@ func (tx *Tx) FindLeafOnDisk(fID int64, rootOff int64, key, newKey []byte) (bn *
 		return nil, err
 	}
 
+	// A node is never its own descendant. Without this check a rootOff that is
+	// not the address of a root (or a damaged index file) could lead back to a
+	// node already visited, and the descent never returned.
+	visited := map[int64]struct{}{rootOff: {}}
+
 	for curr.IsLeaf != 1 {
 		i = 0
 		for i < curr.KeysNum {
@@ -1032,6 +1037,10 @@ func (tx *Tx) FindLeafOnDisk(fID int64, rootOff int64, key, newKey []byte) (bn *
 			}
 		}
 		address := curr.Pointers[i]
+		if _, ok := visited[address]; ok {
+			return nil, fmt.Errorf("the index file %s has a cycle at node address %d", filepath, address)
+		}
+		visited[address] = struct{}{}
 
 		curr, err = ReadNode(filepath, address)
 		if err != nil {
